@@ -172,9 +172,10 @@ def run_case(acc, subj, lab, wname, offset="0"):
             try:
                 with warnings.catch_warnings():
                     warnings.simplefilter("ignore")
-                    s1 = np.asarray(reg.sample_y(Qs, n_samples=k, random_state=7))
-                    s2 = np.asarray(reg.sample_y(Qs, n_samples=k, random_state=7))
-                    s3 = np.asarray(reg.sample_y(Qs, n_samples=k, random_state=np.random.RandomState(7)))
+                    seed = 7 if k == 1 else 0  # 0 is a legal seed as well (and a falsy one)
+                    s1 = np.asarray(reg.sample_y(Qs, n_samples=k, random_state=seed))
+                    s2 = np.asarray(reg.sample_y(Qs, n_samples=k, random_state=seed))
+                    s3 = np.asarray(reg.sample_y(Qs, n_samples=k, random_state=np.random.RandomState(seed)))
                 acc.transitions += 3
             except Exception as e:
                 viol("exception_in_sample_y:" + type(e).__name__, str(e)[:200], {"could_not_fit": could_not_fit})
